@@ -1586,7 +1586,7 @@ class Engine:
                 return [(st, BoundV(o, attr, src), None)]
             if spec is not None and spec.get("effect"):
                 # a property whose getter has effects (e.g. may raise)
-                return self.effect(st, src, (o,), {}, src, may_raise=spec.get("may_raise", True), returns=spec.get("kind", "U"))
+                return self.effect(st, src, (o,), {}, src, may_raise=spec.get("may_raise", True), returns=spec.get("kind", "U"), raises=spec.get("raises"))
             kind = (spec or {}).get("kind", "U")
             sort = {"U": U, "Str": z3.StringSort(), "Int": z3.IntSort(), "Bool": z3.BoolSort()}[kind]
             f = z3.Function(f"attr.{attr}:{kind}", U, sort)
